@@ -9,6 +9,7 @@ import (
 	"runtime/debug"
 	"strings"
 	"sync/atomic"
+	"syscall"
 	"time"
 )
 
@@ -99,10 +100,23 @@ func WorkerMain(id, tier string, shard, nshards int, seed int64, out string) int
 	// attempt; the supervisor restarts the shard with that case on the skip list.
 	go func() {
 		var ms runtime.MemStats
+		// A case counts as hung only when the wall-clock limit has passed AND this process has
+		// itself burnt at least half of it in CPU time since the watchdog first saw the case
+		// (or ten times the limit has passed, for a case that blocks without spinning): on an
+		// overloaded machine a starved worker is not a hang.
+		var seenSt int64
+		var cpuAtSt time.Duration
 		for {
 			time.Sleep(50 * time.Millisecond)
 			st := curStart.Load()
-			hang := st != 0 && time.Since(time.Unix(0, st)) > HangLimit
+			if st != seenSt {
+				seenSt, cpuAtSt = st, processCPU()
+			}
+			wall := time.Duration(0)
+			if st != 0 {
+				wall = time.Since(time.Unix(0, st))
+			}
+			hang := st != 0 && wall > HangLimit && (processCPU()-cpuAtSt > HangLimit/2 || wall > 10*HangLimit)
 			runtime.ReadMemStats(&ms)
 			oom := ms.HeapAlloc > HeapLimit
 			if hang || oom {
@@ -129,4 +143,13 @@ func splitSkip(s string) (why, key string) {
 		return parts[0], parts[1]
 	}
 	return "unknown", s
+}
+
+// processCPU is the user+system CPU time this process has consumed so far.
+func processCPU() time.Duration {
+	var ru syscall.Rusage
+	if syscall.Getrusage(syscall.RUSAGE_SELF, &ru) != nil {
+		return 1 << 62
+	}
+	return time.Duration(ru.Utime.Nano() + ru.Stime.Nano())
 }
